@@ -2,6 +2,7 @@ package props
 
 import (
 	"bytes"
+	"encoding/binary"
 	"encoding/json"
 	"fmt"
 	"reflect"
@@ -47,7 +48,7 @@ func init() {
 	vx.Register(&vx.Prop{
 		ID:    "C05",
 		Level: "exploration",
-		Rule: "Files built through NewHeader/NewFile/constructors: 17 file types x every container member (plus file_id / file_creator / timestamp_correlation) x {no field, each single field x each boundary value, all fields (two value sets), two messages with disjoint halves (union definition), three-message mixes} x byte order x header with/without CRC. " +
+		Rule: "Files built through NewHeader/NewFile/constructors: 17 file types x every container member (plus file_id / file_creator / timestamp_correlation) x {no field, each single field x each boundary value, all fields (two value sets), two messages with disjoint halves (union definition), three-message mixes} x byte order x header with/without CRC; every fifth File is encoded right after two Encode calls that fail part-way. " +
 			"Oracle: strict independent grammar parser (header size/type/data size, header and trailing CRC, every data record defined earlier, sizes multiples of base size, unique field numbers, exact end of data), every definition field listed in the profile with that base type and the profile's size, wire bytes = reference encoding of the Go values put in (arrays padded with invalid, strings NUL padded, times in seconds, local times as wall-clock seconds, semicircles), every set field present; File.Header.DataSize / Header.CRC / CRC equal to what was written. distinct = distinct encoded outputs",
 		Run: runC05,
 		Replay: func(raw json.RawMessage) (string, error) {
@@ -88,6 +89,9 @@ func c05Check(g genSpec) ([]byte, string, string) {
 	p, perr := fitmodel.Parse(out)
 	if perr != nil {
 		return out, "output violates the FIT grammar: " + perr.Error(), "grammar"
+	}
+	if len(p.Oddities) > 0 {
+		return out, "output is not canonical: " + p.Oddities[0], "grammar"
 	}
 	wantHS := byte(12)
 	if g.HdrCRC {
@@ -193,6 +197,15 @@ func runC05(w *vx.W) {
 			k++
 			if !w.Mine(k) {
 				continue
+			}
+			if k%5 == 0 {
+				// an Encode that fails part-way (last message not encodable / writer fault) right before:
+				// nothing of it may leak into the next output
+				safeEncode(failingFile(), k%2 == 0)
+				var err error
+				guard(func() { err = fit.Encode(&failWriter{failAt: 2}, apiFile(1), binary.LittleEndian) })
+				_ = err
+				w.Fam("after-a-failed-encode", 1)
 			}
 			out, msg, class := c05Check(g)
 			if class == "skip" {
